@@ -220,6 +220,7 @@ class Result:
         self.failed = []  # list of dict(property, description)
         self.witness_ok = 0
         self.witness_missing = []
+        self.witness_reached = []
         self.reason = ""
         self.rss_kb = 0
         self.unwind_fail = []
@@ -253,6 +254,7 @@ def check_one(ob, scratch, default_timeout):
         if desc.startswith("WITNESS"):
             if st == "FAILURE":
                 r.witness_ok += 1
+                r.witness_reached.append(desc)
             else:
                 r.witness_missing.append(desc)
             continue
@@ -276,7 +278,9 @@ def check_one(ob, scratch, default_timeout):
     elif r.unwind_fail:
         r.status = "inconclusive"
         r.reason = "unwinding bound too small: " + ",".join(r.unwind_fail[:4])
-    elif (ob.need_witness and r.witness_ok == 0) or any(any(m in w for m in ob.must_reach) for w in r.witness_missing):
+    elif (ob.need_witness and r.witness_ok == 0) or not all(
+            any(m in w for w in r.witness_reached) or not any(m in w for w in r.witness_missing) for m in ob.must_reach) or (
+            ob.must_reach and not any(any(m in w for w in r.witness_reached) for m in ob.must_reach)):
         r.status = "vacuous"
         r.reason = "witness not reachable: " + "; ".join(r.witness_missing[:3])
     else:
